@@ -415,8 +415,15 @@ class Case:
                           ("isotherms_from_db", lambda c: c["loose"])):
             pre = {keyf(c): c for c in reads["pre"][opn]}
             post = {keyf(c): c for c in reads["post"][opn]}
+            # a successful isotherm deletion removes exactly one isotherm; which retrieved object that is cannot be
+            # told from W's identifier when the uploader described its material differently from the file
+            allowance = 1 if (opn == "isotherms_from_db" and w["op"] == "isotherm_delete_db"
+                              and len(reads["pre"][opn]) - len(reads["post"][opn]) == 1) else 0
             for k, c in pre.items():
                 if k in target or (isinstance(c, dict) and c.get("iso_id") in target):
+                    continue
+                if k not in post and allowance:
+                    allowance -= 1
                     continue
                 if k not in post:
                     self.fail("prior-content-lost", f"w={self.wclass} table={opn.split('_')[0]}", {"key": k})
